@@ -157,8 +157,8 @@ def parse_interactions(lines, comments='#', directed=False, delimiter=None, node
         else:
             timestamps = G.adj[u][v]['t']
             if len(timestamps) > 0 and timestamps[-1][1] < s:
-                for t in range(timestamps[-1][1], s):
-                    G.add_interaction(u, v, t=t)
+                # the pair stays present from its latest appearance through s - 1 and vanishes at s
+                G.add_interaction(u, v, t=timestamps[-1][0], e=s)
 
     return G
 
